@@ -101,10 +101,11 @@ def code_or_none(x):
     return "none" if (x == -math.inf) else str(fcode(x))
 
 
-def make_model(dims, sigma=1.0, seed=0, ties=False, cut=False):
+def make_model(dims, sigma=1.0, seed=0, ties=False, cut=False, offset=0.0):
     """Gaussian likelihood in a [-4,4]^d box with a flat prior; unit-hypercube maps for the importance sampler.
     `ties`: outside radius 1 the likelihood is quantised (many exactly equal values among the early points);
-    `cut`: the prior is zero on part of the box (x0 + x1 > 2): log_prior = -inf inside the bounds, a legal constrained model"""
+    `cut`: the prior is zero on part of the box (x0 + x1 > 2): log_prior = -inf inside the bounds, a legal constrained model;
+    `offset`: constant added to the log-likelihood (an un-normalised likelihood: log Z far outside the float64 exp range)"""
     from nessai.model import Model
 
     class Gauss(Model):
@@ -127,7 +128,7 @@ def make_model(dims, sigma=1.0, seed=0, ties=False, cut=False):
                 out = out - 0.5 * ((x[n] - m) / self.sigma) ** 2
             if ties:
                 out = np.where(out < -0.5, -np.ceil(-out * 2.0) / 2.0, out)
-            return out - dims * math.log(self.sigma)
+            return out - dims * math.log(self.sigma) + offset
 
         def to_unit_hypercube(self, x):
             y = x.copy()
@@ -376,7 +377,8 @@ class Recorder:
 
 
 STD_KINDS = ["rejection", "flow", "cap", "resume-flow", "rejection-t", "resume-rejection", "cap-late", "flow-narrow",
-             "rejection-ties", "cap-exact", "flow-ties", "rejection-cut", "resume-finished", "resume-cap"]
+             "rejection-ties", "cap-exact", "flow-ties", "rejection-cut", "resume-finished", "resume-cap",
+             "rejection-offset", "flow-offset"]
 
 
 def std_config(kind, seed, nlive):
@@ -406,12 +408,13 @@ def run_standard(kind, seed, nlive, dims=2):
     sigma = 0.4 if kind == "flow-narrow" else 1.0
     ties = kind.endswith("-ties")
     cut = kind.endswith("-cut")
+    offset = [-1500.0, 800.0, -5000.0][seed % 3] if kind.endswith("-offset") else 0.0
     kw = std_config(kind, seed, nlive)
-    res = dict(kind=kind, seed=seed, nlive=nlive, dims=dims, segments=[], error=None)
+    res = dict(kind=kind, seed=seed, nlive=nlive, dims=dims, segments=[], error=None, offset=offset)
     rec.install()
     try:
         with quiet():
-            model = make_model(dims, sigma, seed, ties, cut)
+            model = make_model(dims, sigma, seed, ties, cut, offset)
             if kind in ("resume-flow", "resume-rejection"):
                 # killed at an arbitrary iteration; resumed from the last periodic checkpoint (later iterations are lost)
                 rec.stop_at = nlive + 5 + (seed % 17)
@@ -421,7 +424,7 @@ def run_standard(kind, seed, nlive, dims=2):
                 except Stop:
                     pass
                 first, rec.steps, rec.stop_at = rec.steps, [], None
-                model = make_model(dims, sigma, seed, ties, cut)
+                model = make_model(dims, sigma, seed, ties, cut, offset)
                 fs = FlowSampler(model, output=out, resume=True, **kw)
                 res["resumed_at"] = int(fs.ns.iteration)
                 res["resumed"] = bool(fs.ns.resumed)
@@ -437,14 +440,14 @@ def run_standard(kind, seed, nlive, dims=2):
                     fs0.run(plot=False, save=False)
                     kw["max_iteration"] = int(fs0.ns.iteration)
                     rec.steps, rec.pop = [], None
-                    model = make_model(dims, sigma, seed, ties, cut)
+                    model = make_model(dims, sigma, seed, ties, cut, offset)
                 fs = FlowSampler(model, output=out, resume=False, **kw)
                 fs.run(plot=False, save=True)
                 res["segments"].append(dict(type="loop", below0=False, steps=rec.steps))
                 if kind in ("resume-finished", "resume-cap"):
                     # the completed (or capped) run is resumed from its final checkpoint and run again
                     rec.steps = []
-                    model = make_model(dims, sigma, seed, ties, cut)
+                    model = make_model(dims, sigma, seed, ties, cut, offset)
                     fs = FlowSampler(model, output=out, resume=True, **kw)
                     res["resumed_at"] = int(fs.ns.iteration)
                     res["resumed"] = bool(fs.ns.resumed)
@@ -491,7 +494,8 @@ def info_recursion(logLs, sched, mode):
 
 def check_standard(ctx, res):
     """oracle (the property on the real outputs) + tie (replay through the Lean models)"""
-    case = dict(kind="standard:" + res["kind"], seed=res["seed"], nlive=res["nlive"], dims=res["dims"])
+    case = dict(kind="standard:" + res["kind"], seed=res["seed"], nlive=res["nlive"], dims=res["dims"],
+                loglikelihood_offset=res.get("offset", 0.0))
     site = "NestedSampler"
     if res["error"]:
         ctx.oracle_fail("FlowSampler.run:standard:raised", f"a supported standard-sampler run raised {res['error']}",
@@ -592,11 +596,20 @@ def check_standard(ctx, res):
     if len(ll) == len(sched) and len(ll) > 0:
         H = info_recursion(ll, sched, mode)
         want_err = M.sqrt(H / n) if H >= 0 else M.nan
-        if not close(err, want_err):
+        # float64 rounding of the information recursion: each step's weights exp(Wt - logZ), exp(oldZ - logZ) carry a relative
+        # error eps*max|logL| and multiply numbers of size max|logL|; the recursion damps old errors by (1 - 1/nlive), so the
+        # worst case accumulates to about eps * max|logL|^2 * nlive (a likelihood offset c costs ~ c^2 * nlive * 1e-16;
+        # observed 3e-8 at c = -5000, nlive = 120).  Allowed on top of the usual 1e-9; negligible without an offset.
+        finite_ll = ll[np.isfinite(ll)]
+        round_h = 1e-15 * n * (float(np.max(np.abs(finite_ll))) ** 2 if len(finite_ll) else 0.0)
+        tol_h = TOL * max(1.0, abs(float(H))) + round_h
+        tol_e = TOL * max(1.0, abs(float(want_err)) if H >= 0 else 1.0) + (round_h / (2.0 * math.sqrt(float(H) * n)) if H > 0 else 0.0)
+        if not (math.isfinite(err) and H >= 0 and abs(M.mpf(err) - want_err) <= tol_e):
             ctx.oracle_fail(site + ":log_evidence_error-not-recomputable", f"reported uncertainty {err!r} but sqrt(H/nlive) "
                             f"recomputed from the returned samples is {float(want_err)!r}", case)
-        if not close(float(ns.information), H):
-            ctx.oracle_fail(site + ":information-not-recomputable", f"reported information {float(ns.information)!r}, recomputed "
+        info_real = float(ns.information)
+        if not (math.isfinite(info_real) and abs(M.mpf(info_real) - H) <= tol_h):
+            ctx.oracle_fail(site + ":information-not-recomputable", f"reported information {info_real!r}, recomputed "
                             f"{float(H)!r}", case)
     # ---------------------------------------------------------------- (d) dictionary = file = sampler = FlowSampler
     checks = [
@@ -687,6 +700,9 @@ INS_CONFIGS = [
     dict(dims=2, nlive=50, levels=2, strict=False, replace_all=False, draw_constant=True, iid=False, reparam="logit", q=0.5, min_samples=20, flows="neural"),
     dict(dims=2, nlive=50, levels=3, strict=False, replace_all=False, draw_constant=True, iid=True, reparam="logit", q=0.5, min_samples=20, flows="tilt", cut=True),
     dict(dims=2, nlive=40, levels=4, strict=True, replace_all=False, draw_constant=True, iid=False, reparam=None, q=0.5, min_samples=10, flows="tilt", cut=True, resume=2),
+    dict(dims=2, nlive=50, levels=3, strict=False, replace_all=False, draw_constant=True, iid=True, reparam=None, q=0.5, min_samples=20, flows="tilt", offset=-1500.0),
+    dict(dims=2, nlive=40, levels=3, strict=False, replace_all=False, draw_constant=True, iid=False, reparam="logit", q=0.5, min_samples=10, flows="tilt", offset=-5000.0),
+    dict(dims=2, nlive=40, levels=3, strict=True, replace_all=False, draw_constant=True, iid=True, reparam=None, q=0.6, min_samples=10, flows="tilt", offset=800.0, resume=2),
 ]
 
 
@@ -726,7 +742,7 @@ def run_ins(cfg, seed):
     try:
         with quiet(), ctxm, mock.patch.object(INS, "add_new_proposal_weight", add_new_proposal_weight), \
                 mock.patch.object(INS, "checkpoint", checkpoint):
-            model = make_model(cfg["dims"], 1.0, seed, False, bool(cfg.get("cut")))
+            model = make_model(cfg["dims"], 1.0, seed, False, bool(cfg.get("cut")), float(cfg.get("offset", 0.0)))
             fs = FlowSampler(model, output=out, resume=bool(cfg.get("resume")), **kw)
             try:
                 try:
@@ -735,13 +751,13 @@ def run_ins(cfg, seed):
                     res["killed_at"] = int(fs.ns.iteration)
                     kept = [d_ for d_ in draws if d_[0] < fs.ns.iteration]
                     draws[:] = kept
-                    model = make_model(cfg["dims"], 1.0, seed, False, bool(cfg.get("cut")))
+                    model = make_model(cfg["dims"], 1.0, seed, False, bool(cfg.get("cut")), float(cfg.get("offset", 0.0)))
                     fs = FlowSampler(model, output=out, resume=True, **kw)
                     res["resumed"] = bool(fs.ns.resumed)
                     fs.run(plot=False, save=True)
                 if cfg.get("rerun"):
                     # the finished run is resumed from its final checkpoint and run again
-                    model = make_model(cfg["dims"], 1.0, seed, False, bool(cfg.get("cut")))
+                    model = make_model(cfg["dims"], 1.0, seed, False, bool(cfg.get("cut")), float(cfg.get("offset", 0.0)))
                     fs = FlowSampler(model, output=out, resume=True, **kw)
                     res["resumed"] = bool(fs.ns.resumed)
                     res["rerun_finalised_at_resume"] = bool(fs.ns.finalised)
@@ -850,8 +866,10 @@ def check_ins(ctx, res):
                 ctx.oracle_fail(site + ":log_evidence-not-recomputable", f"reported log-evidence {logZ!r} but the mean importance "
                                 f"weight of the returned samples gives {float(mZ)!r}", case)
             if not close(err, mErr):
-                ctx.oracle_fail(site + ":log_evidence_error-not-recomputable", f"reported uncertainty {err!r}, recomputed "
-                                f"{float(mErr)!r}", case)
+                ctx.oracle_fail(site + ":log_evidence_error-not-recomputable", f"reported uncertainty {err!r}"
+                                + ("" if math.isfinite(err) else " (not finite)") + ", recomputed from logL+logW of the returned "
+                                f"samples {float(mErr)!r} (sigma[ln Z] does not depend on a constant likelihood offset; "
+                                f"log Z = {logZ!r})", case)
             if len(logpw) != N:
                 ctx.oracle_fail(site + ":weights-length", f"{len(logpw)} log posterior weights for {N} returned samples", case)
             else:
@@ -894,7 +912,8 @@ def check_ins(ctx, res):
              dict(case, returned=n_s, levels=levels, log_evidence=logZ, log_evidence_error=err,
                   resumed=res.get("resumed"), killed_at=res.get("killed_at")),
              kind=f"importance:{cfg['flows']}:iid={int(cfg['iid'])}:strict={int(cfg['strict'])}:{cfg['reparam']}"
-                  + (":cut" if cfg.get("cut") else "") + (":resumed" if cfg.get("resume") else "")
+                  + (":cut" if cfg.get("cut") else "") + (f":offset={cfg['offset']:g}" if cfg.get("offset") else "")
+                  + (":resumed" if cfg.get("resume") else "")
                   + (":rerun-finished" if cfg.get("rerun") else ""))
     ctx.hist["returned samples checked (importance)"] += n_s
 
@@ -1033,6 +1052,8 @@ def correspond(ctx):
                 "degenerate weights)")
     ctx.assume("exp() of returned log-likelihoods / importance weights enters the Rat models as 100-bit dyadics (relative error "
                "2^-100); float64 rounding of the implementation stays below 1e-9*max(1,|value|): observed, not proved",
+               "the information recursion of the standard sampler loses up to about 1e-15*nlive*max|logL|^2 absolutely to float64 "
+               "cancellation (observed 3e-8 at a likelihood offset of -5000, nlive 120): allowed on top of 1e-9 for the information and the uncertainty derived from it",
                "candidate streams are what the proposals' draw() returned with finite log-prior; the stopping test is the recorded "
                "Boolean condition <= tolerance after each iteration",
                "pickling a sampler at an iteration boundary and loading it is the identity on the modelled state (C12)")
